@@ -49,9 +49,16 @@ def check_modified_block(
                 )
                 raise GuppyError(err)
 
+        from guppylang_internals.cfg.builder import is_tmp_var
+
         for cfg_bb in cfg.bbs:
-            if cfg_bb.vars.assigned:
-                _, v = next(iter(cfg_bb.vars.assigned.items()))
+            # Temporaries introduced when desugaring conditional expressions are
+            # not user assignments
+            assigned = {
+                x: v for x, v in cfg_bb.vars.assigned.items() if not is_tmp_var(x)
+            }
+            if assigned:
+                _, v = next(iter(assigned.items()))
                 err = InvalidUnderDagger(v, "Assignment")
                 err.add_sub_diagnostic(
                     InvalidUnderDagger.Dagger(modified_block.span_ctxt_manager())
